@@ -292,6 +292,34 @@ theorem guard_flexPushTail (it : Ty) (l : LenTy) (i : Init) (data : Slice) (w : 
     | err e => rfl
     | fault f => rfl
 
+/-- `FlexVec::truncate` and `pop`: the early return, the empty case and the slot that receives the `MAX` marker, in terms of the
+conditions extracted from the source (the `truncate` site exists only while the code has the shape: early return; `L::zero()` at the
+start when `len == 0`; `L::max_value()` at the slot of item `len - 1` otherwise) -/
+theorem guard_flexTruncate (it : Ty) (l : LenTy) (n : Nat) (data : Slice) (slots : List Nat)
+    (hs : flexSlots it l (data.len + 1) 0 data = .ok slots) :
+    flexTruncate it l n data =
+      if Gen.cFlexTruncNoop_cond n slots.length then .ok data.bytes
+      else if Gen.cFlexTruncEmpty_cond n then writeAt data.bytes 0 (encLenTy l 0)
+      else match slots[n - 1]? with
+        | some q => writeAt data.bytes q (encLenTy l l.max)
+        | none => .fault .panic := by
+  simp only [flexTruncate, hs, Res.bind, Gen.cFlexTruncNoop_cond, Gen.cFlexTruncEmpty_cond, decide_eq_true_eq]
+  split
+  · rfl
+  · split
+    · rfl
+    · rfl
+theorem guard_flexPop (it : Ty) (l : LenTy) (data : Slice) (slots : List Nat)
+    (hs : flexSlots it l (data.len + 1) 0 data = .ok slots) :
+    flexPop it l data =
+      if Gen.cFlexPopSome_cond slots.length then (flexTruncate it l (slots.length - 1) data).bind fun b => .ok (b, true)
+      else .ok (data.bytes, false) := by
+  simp only [flexPop, hs, Res.bind, Gen.cFlexPopSome_cond, decide_eq_true_eq]
+  by_cases h : slots.length = 0
+  · simp [h]
+  · have : slots.length > 0 := by omega
+    simp [h, this]
+
 /-- the generated validators of enums: the tag range test of `tag.rs` (`*tag < #var_count`, else `InvalidEnumTag @ 0`) and, for an
 unsized enum, the per-variant room test of `cast.rs` — made on the payload *after* it has been floored to the alignment (the site
 regex requires that order), refused with the extracted kind -/
@@ -315,7 +343,7 @@ theorem guard_uenum (tag : LenTy) (vs : List (List Dict)) (s : Slice) (t : Nat) 
   · cases s.dropU (ceilMul tag.size (max tag.align (alignLL vs))) <;> simp
   · rfl
 
-theorem guards_untranslatable_none : (Gen.gFlexPushRoom_untranslatable || Gen.flexPushItemErrPos_untranslatable || Gen.gEnumVariantRoom_untranslatable || Gen.cTagInRange_untranslatable || Gen.gCheckAlign_untranslatable || Gen.gCheckMin_untranslatable || Gen.gVecValidate_untranslatable ||
+theorem guards_untranslatable_none : (Gen.cFlexTruncNoop_untranslatable || Gen.cFlexTruncEmpty_untranslatable || Gen.cFlexPopSome_untranslatable || Gen.gFlexPushRoom_untranslatable || Gen.flexPushItemErrPos_untranslatable || Gen.gEnumVariantRoom_untranslatable || Gen.cTagInRange_untranslatable || Gen.gCheckAlign_untranslatable || Gen.gCheckMin_untranslatable || Gen.gVecValidate_untranslatable ||
     Gen.gVecFromArray_untranslatable || Gen.gStrValidate_untranslatable || Gen.gFlexSlotAlign_untranslatable || Gen.gFlexBadOffset_untranslatable ||
     Gen.gFlexShort_untranslatable || Gen.gFlexFillRoom_untranslatable || Gen.gFlexFillSeal_untranslatable || Gen.gFlexPushSeal_untranslatable) = false := by decide
 end FV.Bridge
